@@ -56,7 +56,28 @@ def run(ctx):
             b = bad[0] if bad else s
             ctx.fail("%s:%s" % (v["name"], b["grammar"]), case=dict(grammar=b["grammar"], proc=b["proc"]), observed=dict(err=b["err"], onDisk=b["onDisk"], files=b["files"]),
                      detail="TLC invariant %s violated" % v["name"])
+    # the command-line generator and the files on disk (GenCLI.tla): design properties by TLC, then histories of write / -diff / edit / delete
+    # replayed with the real binary in scratch directories (json.tm), the disk compared with the in-process generator after every step
+    r = ctx.tlc("GenCLI", "GenCLIDesign.cfg", timeout=600, continue_=False, name="cli-design")
+    for v in r.violations:
+        raise vlib.Infra("design model GenCLI.tla violated (%s): a spec defect, not a verdict" % v["name"])
+    hc = ctx.path("cli.ndjson")
+    ctx.tlc("GenCLIGen", "Gen.cfg", workers=1, timeout=900, name="cligen", env={"VERIF_OUT": hc})
+    hs = vlib.read_ndjson(hc)
+    if not thorough:
+        hs = [h for i, h in enumerate(hs) if i % 3 == ctx.seed % 3]
+    vlib.write_ndjson(hc, hs)
+    tmbin = ctx.path("bin", "textmapper")
+    p = vlib.run([vlib.GO, "build", "-o", tmbin, "./cmd/textmapper"], cwd=vlib.REPO, env=vlib.goenv(), timeout=900, check=False)
+    if p.returncode != 0:
+        raise vlib.Infra("textmapper does not build: " + p.stderr[-2000:])
+    ho = ctx.path("cli.rec.ndjson")
+    ctx.vhrun(["gencli-run", hc, os.path.join(vlib.REPO, "parsers", "json", "json.tm"), tmbin, ctx.path("cliwork"), ho], timeout=3000)
+    csig = lambda c: "cli:" + " ".join(s["op"] + (str(s["f"]) if s["f"] else "") for s in c["steps"])
+    vlib.validate_cases(ctx, "GenCLITrace", "GenCLITrace.cfg", ho, label="cli", timeout=1800, sig=csig, sigv=lambda c, rec, v: v + ":" + csig(c), rerun=None,
+                        input_keys=["steps"], observed_keys=["obs", "crash"], nontrivial=lambda c: any(o["differs"] for o in c["obs"]))
     ctx.cov["rule"] = ("%d processes (GOMAXPROCS 1/2/16, shuffled grammar orders) each generate %d grammars 3 times in one process; every written file is hashed; TLC replays the "
                        "whole history. Repetition, not enumeration of schedules: Go randomises every map iteration, so an order dependence that can change the output at all "
-                       "surfaces with high probability over %d generations. Distinct: grammars and processes." % (nproc, len(stress) + len(shipped), len(steps)))
+                       "surfaces with high probability over %d generations. The command line (GenCLI.tla): histories of up to four write / -diff / edit / delete steps with the real binary. "
+                       "Distinct: grammars and processes." % (nproc, len(stress) + len(shipped), len(steps)))
     ctx.assumptions += ["file contents are compared through a 64-bit prefix of SHA-256", "goroutine schedules and map orders are sampled by repetition, not enumerated"]
